@@ -74,6 +74,15 @@ func (g *gen) call(x *ssa.Call, st State, reach string) string {
 	if anchored {
 		name = calleeName(&x.Call)
 		nth = g.callOrdinal(x, name)
+		if len(g.fc.GhostSets) > 0 {
+			var cargs []Val
+			for _, a := range x.Call.Args {
+				cargs = append(cargs, g.redirect(g.val(a)))
+			}
+			g.ghostSetArgs, g.ghostSetBefore = cargs, true
+			g.applyGhostSets(false, name, nth, nil, st)
+			g.ghostSetArgs, g.ghostSetBefore = nil, false
+		}
 		for _, pa := range g.fc.PointAsserts {
 			if strings.TrimPrefix(pa.Callee, "(") != strings.TrimPrefix(name, "(") || pa.Nth != nth {
 				continue
@@ -133,7 +142,7 @@ func (g *gen) applyGhostSets(entry bool, callee string, nth int, results []Val, 
 		if !atReturn && gs.AtEntry != entry {
 			continue
 		}
-		if !atReturn && !entry && (strings.TrimPrefix(gs.Callee, "(") != strings.TrimPrefix(callee, "(") || gs.Nth != nth) {
+		if !atReturn && !entry && (strings.TrimPrefix(gs.Callee, "(") != strings.TrimPrefix(callee, "(") || gs.Nth != nth || gs.Before != g.ghostSetBefore) {
 			continue
 		}
 		cl := Clause{Label: "set." + gs.Name, Src: gs.Src, File: gs.File, Line: gs.Line}
